@@ -226,7 +226,10 @@ def main(tier, seed, replay=None):
     ev.add_tlc("MC_Summaries histories depth %d" % d, res)
     hs = res.tagged("H")
     if tier == "quick" and len(hs) > 20000:
-        hs = par.sample(hs, 2, seed)
+        # histories in which the stored summaries go missing are all kept
+        strip = [h for h in hs if any(r["step"]["a"] == "strip" for r in h)]
+        hs = strip + par.sample([h for h in hs if not any(
+            r["step"]["a"] == "strip" for r in h)], 2, seed)
     elif len(hs) > 120000:
         hs = par.sample(hs, 4, seed)
     root = tlc.scratch_dir("vp_c20_")
@@ -234,8 +237,8 @@ def main(tier, seed, replay=None):
         jobs = []
         for h in hs:
             jobs.append((h, root, "deform"))
-            if not any(NAN in (r["step"].get("blk") or []) for r in h) \
-                    and len(jobs) % 5 == 0:
+            # integer-typed feature for every NaN-free history
+            if not any(NAN in (r["step"].get("blk") or []) for r in h):
                 jobs.append((h, root, "fl1_max"))
         for case, viol in par.pmap(_replay, jobs, chunk=50):
             ev.traces += 1
